@@ -133,18 +133,22 @@ func raceLogSize() (int64, string) {
 }
 
 func c14Scenario1(c *core.Ctx, si int, sc c14Scenario, bound int) {
-	x := newC14Shared()
 	n := len(sc.Threads)
-	// sequential results of every call on its thread's tape
+	// sequential results of every call on its thread's tape, each thread on
+	// its own freshly built values (so nothing is warmed up for the others)
 	want := make([][]string, n)
 	mkTape := func(i int) *tape.Tape { return policyTape(c14Policies[i]) }
 	for i, calls := range sc.Threads {
+		x0 := newC14Shared()
 		t := mkTape(i)
 		install(t)
 		for _, name := range calls {
-			want[i] = append(want[i], safe(func() string { return c14Calls[name].Do(x) }))
+			want[i] = append(want[i], safe(func() string { return c14Calls[name].Do(x0) }))
 		}
 	}
+	// every schedule runs on brand-new shared values: lazily initialised
+	// state is uninitialised at the start of each execution
+	x := newC14Shared()
 	snap := x.snapshot()
 	got := make([][]string, n)
 	tapes := make([]*tape.Tape, n)
@@ -175,6 +179,7 @@ func c14Scenario1(c *core.Ctx, si int, sc c14Scenario, bound int) {
 			break
 		}
 		plan := append([]int{}, ch.Prefix()...)
+		x = newC14Shared()
 		for i := range tapes {
 			tapes[i] = mkTape(i)
 			got[i] = got[i][:0]
@@ -301,7 +306,7 @@ func init() {
 		Level: "model_checking",
 		Build: "race",
 		Rule: "9 scenarios of 2-3 threads x 1-2 calls on shared CharRecipe, WLRecipe, WordList, constructed and preset separator functions; scheduling points before every statement of package spg and at every lock operation of golang-set (instrumented copy, -race build); ALL schedules with at most 1 deviation from the default schedule (quick; thorough: at most 2 on every two-thread scenario) are executed by a controlled scheduler whose hand-offs are invisible to the race detector; " +
-			"oracle per schedule: every call returns what it returns alone on the same random stream, shared values unchanged, no deadlock, race detector silent; non-trivial = distinct (scenario, switches, results) observations",
+			"every schedule starts from freshly built shared values (lazily initialised state is cold); oracle per schedule: every call returns what it returns alone on the same random stream, shared values unchanged, no deadlock, race detector silent; non-trivial = distinct (scenario, switches, results) observations",
 		Assume:  []string{"bounded deviations (preemptions and non-default thread choices both cost 1)", "memory-model effects beyond what the race detector flags are not modelled", "helper goroutines spawned by golang-set's Iter() talk only to their spawner and run free"},
 		Run:     c14Run,
 		Prepare: c14Prepare,
